@@ -94,17 +94,67 @@ func (a *clusterACLs) allowed(principal, host, resourceName string, resourceType
 	return hasAllow
 }
 
+// anyAllowed returns whether the principal may perform op on some resource of
+// the given type, mirroring Kafka's authorizeByResourceType: a matching DENY
+// on the wildcard resource denies outright, and an ALLOW pattern only counts
+// if no matching DENY pattern dominates it (the same literal, or a prefix of
+// the allowed literal or prefix).
 func (a *clusterACLs) anyAllowed(principal, host string, resourceType kmsg.ACLResourceType, op kmsg.ACLOperation) bool {
+	var denyLiterals, denyPrefixes []string
 	for i := range a.acls {
 		acl := &a.acls[i]
 		if acl.resourceType != resourceType ||
+			acl.permission != kmsg.ACLPermissionTypeDeny ||
 			!acl.matchesPrincipal(principal) ||
 			!acl.matchesHost(host) ||
 			!acl.matchesOp(op) {
 			continue
 		}
-		if acl.permission == kmsg.ACLPermissionTypeAllow {
-			return true
+		switch acl.pattern {
+		case kmsg.ACLResourcePatternTypeLiteral:
+			if acl.resourceName == "*" {
+				return false
+			}
+			denyLiterals = append(denyLiterals, acl.resourceName)
+		case kmsg.ACLResourcePatternTypePrefixed:
+			denyPrefixes = append(denyPrefixes, acl.resourceName)
+		default: // other pattern types never match a resource
+		}
+	}
+	dominated := func(name string, literal bool) bool {
+		if literal {
+			for _, d := range denyLiterals {
+				if d == name {
+					return true
+				}
+			}
+		}
+		for _, p := range denyPrefixes {
+			if p != "" && strings.HasPrefix(name, p) {
+				return true
+			}
+		}
+		return false
+	}
+	for i := range a.acls {
+		acl := &a.acls[i]
+		if acl.resourceType != resourceType ||
+			acl.permission != kmsg.ACLPermissionTypeAllow ||
+			!acl.matchesPrincipal(principal) ||
+			!acl.matchesHost(host) ||
+			!acl.matchesOp(op) {
+			continue
+		}
+		switch acl.pattern {
+		case kmsg.ACLResourcePatternTypeLiteral:
+			if acl.resourceName == "*" || !dominated(acl.resourceName, true) {
+				return true
+			}
+		case kmsg.ACLResourcePatternTypePrefixed:
+			if !dominated(acl.resourceName, false) {
+				return true
+			}
+		default: // other pattern types never match a resource
 		}
 	}
 	return false
